@@ -10,7 +10,7 @@
 (* page  == [ n, defRuns, repRuns (Hybrid run lists), enc (0 PLAIN | 2 | 8),                *)
 (*            vals : Seq(bytes) (dense, PLAIN) or idxRuns + bw (dictionary indices),        *)
 (*            crc : "none" | "good" | "bad", stats, v2 : BOOLEAN ]                          *)
-EXTENDS Naturals, Sequences, SequencesExt, FiniteSets, Bytes, W, Varint, BitPack, Hybrid, ThriftCompact, Crc32, PageCodec
+EXTENDS Naturals, Sequences, SequencesExt, FiniteSets, Bytes, W, Varint, BitPack, Hybrid, ThriftCompact, Crc32, PageCodec, Malformed
 
 WMAGIC == <<80, 65, 82, 49>>
 NoStatsW == [has |-> FALSE]
@@ -84,8 +84,8 @@ DataPage(ch, pg, extras, sty) ==
                      \o (IF pg.crc # "none" THEN <<F(4, CrcField(stored, pg.crc))>> ELSE <<>>)
                      \o <<F(5, dh)>>
                      \o (IF extras THEN ExtraFields(60) ELSE <<>>))
-        hb == TSer(ph, sty)
-    IN [bytes |-> hb \o stored, hdrLen |-> Len(hb), ulen |-> Len(body), clen |-> Len(stored)]
+        hb == TSer(IF pg.hmut.kind = "none" THEN ph ELSE Apply(ph, pg.hmut), sty)     \* hostile-file hook (C04)
+    IN [bytes |-> hb \o stored, hdrLen |-> Len(hb), ulen |-> Len(body), clen |-> Len(stored), tree |-> ph]
 
 \* data page v2: levels without length prefix, never compressed; values section after them
 DataPageV2(ch, pg, sty) ==
@@ -137,7 +137,7 @@ ElemTree(e) ==
          \o (IF ~e.hasType \/ e.nchild > 0 THEN <<F(5, I(e.nchild))>> ELSE <<>>)
          \o (IF e.conv # 255 THEN <<F(6, I(e.conv))>> ELSE <<>>) )
 
-SerFile(d) ==
+Layout(d) ==
     LET \* lay the chunks out one after the other from offset 4
         RECURSIVE layRg(_, _, _)
         layCols(cols, off, acc) ==
@@ -151,12 +151,17 @@ SerFile(d) ==
                      rgT == Struct(<<F(1, List("struct", lc.ccs)), F(2, L(lc.tun)), F(3, L(d.rgs[g].numRows))>>
                                    \o (IF d.extras THEN ExtraFields(10) ELSE <<>>))
                  IN layRg(g + 1, lc.off, [bytes |-> acc.bytes \o lc.bytes, rgs |-> Append(acc.rgs, rgT)])
-        lay == layRg(1, 4, [bytes |-> <<>>, rgs |-> <<>>])
-        total == FoldLeft(LAMBDA acc, rg : acc + rg.numRows, 0, d.rgs)
-        fmd == Struct(<<F(1, I(1)), F(2, List("struct", [i \in 1..Len(d.elements) |-> ElemTree(d.elements[i])])),
-                        F(3, L(total)), F(4, List("struct", lay.rgs))>>
-                      \o (IF d.createdBy # <<>> THEN <<F(6, Bin(d.createdBy))>> ELSE <<>>)
-                      \o (IF d.extras THEN ExtraFields(100) ELSE <<>>))
-        fb == TSer(fmd, d.sty)
-    IN WMAGIC \o lay.bytes \o fb \o LE(Len(fb), 4) \o WMAGIC
+    IN layRg(1, 4, [bytes |-> <<>>, rgs |-> <<>>])
+
+FooterTree(d, lay) ==
+    LET total == FoldLeft(LAMBDA acc, rg : acc + rg.numRows, 0, d.rgs)
+    IN Struct(<<F(1, I(1)), F(2, List("struct", [i \in 1..Len(d.elements) |-> ElemTree(d.elements[i])])),
+                F(3, L(total)), F(4, List("struct", lay.rgs))>>
+              \o (IF d.createdBy # <<>> THEN <<F(6, Bin(d.createdBy))>> ELSE <<>>)
+              \o (IF d.extras THEN ExtraFields(100) ELSE <<>>))
+
+FooterBytes(tree, sty) == LET fb == TSer(tree, sty) IN fb \o LE(Len(fb), 4) \o WMAGIC
+Assemble(data, tree, sty) == WMAGIC \o data \o FooterBytes(tree, sty)
+
+SerFile(d) == LET lay == Layout(d) IN Assemble(lay.bytes, FooterTree(d, lay), d.sty)
 =============================================================================
